@@ -29,42 +29,9 @@ def run(R):
     hier = ExcHierarchy(repo)
     AC = repo.cls("contexts.AsyncContext")
     NAC = repo.cls("contexts.NonAsyncContext")
-    # ---- ENTER / EXIT
-    for cls, hook_enter, hook_exit in ((AC, "resume", "pause"), (NAC, None, None)):
-        en, ex = cls.methods.get("__enter__"), cls.methods.get("__exit__")
-        R.need(en is not None and ex is not None, "anchor vanished: %s.__enter__/__exit__" % cls.qualname)
-        for m, hook, reg in ((en, hook_enter, "enter_context"), (ex, hook_exit, "leave_context")):
-            cfg = cfg_of(m)
-            if hook:
-                sites = [n for n, c in _calls_on_self(m, hook)]
-                p = cfg.find_path([cfg.entry], [cfg.exit], N, cut_nodes=sites)
-                R.check(p is None and sites, "C06.ENTER-EXIT", "%s:%s" % (m.qualname, hook), R.site(m),
-                        "%s calls self.%s() on every path" % (m.name, hook),
-                        "%s can return without calling self.%s(): %s" % (m.name, hook,
-                        "the context is never activated" if hook == "resume" else "the context stays active after the block is left (e.g. when it is left by an early result / GeneratorExit)"),
-                        cfg.fmt_path(p) if p else None)
-                p = kit.at_most_once(m, sites, N)
-                R.check(p is None, "C06.ENTER-EXIT", "%s:%s:once" % (m.qualname, hook), R.site(m),
-                        "self.%s() at most once per %s" % (hook, m.name), "self.%s() can be called twice by %s" % (hook, m.name),
-                        cfg.fmt_path(p) if p else None)
-            regs = kit.call_sites(m, lambda c: q.call_name(c) == reg and c.args and q.src(c.args[0]) == "self")
-
-            def asyncio_mode(nd):
-                if nd.kind != "test":
-                    return None
-                k, s, pos = q.atom_test(nd.ast)
-                if k == "call" and s == "is_asyncio_mode":
-                    return "T" if pos else "F"
-                return None
-
-            def keep(e, cfg=cfg):
-                lab = asyncio_mode(cfg.nodes[e.src])
-                return not (lab is not None and e.label == lab)
-            p = cfg.find_path([cfg.entry], [cfg.exit], N, cut_nodes=[n for n, c in regs], keep_edge=keep)
-            R.check(p is None and regs, "C06.ENTER-EXIT", "%s:%s" % (m.qualname, reg), R.site(m),
-                    "outside asyncio mode %s calls %s(self, ...) on every path" % (m.name, reg),
-                    "outside asyncio mode %s can skip %s(self): the scheduler does not know about the context (no pause when the task is suspended) "
-                    "or keeps pausing a context that was left" % (m.name, reg), cfg.fmt_path(p) if p else None)
+    enter_exit_rules(R, "C06")
+    from .c08 import active_own
+    active_own(R, ro, "C06.ACTIVE-OWN")
     # enter_context registers with the active task of *this thread's* scheduler
     ec = repo.fn("contexts.enter_context")
     lc = repo.fn("contexts.leave_context")
@@ -191,8 +158,8 @@ def run(R):
         R.check(not wrong, "C06.ALTERNATE", m.qualname + ":only-flip", R.site(m),
                 "%s writes the flag only to %s" % (mname, newval), "%s writes the flag to another value" % mname)
         # every registered context gets the hook: the loop is over all of self._contexts, no break/return
-        loops = [n for n in ast.walk(m.node) if isinstance(n, ast.For) and "self._contexts" in q.src(n.iter)]
-        R.need(len(loops) == 1, "idiom: %s does not loop over self._contexts" % mname)
+        loops = [n for n in ast.walk(m.node) if isinstance(n, ast.For) and any(q.attr_call(c)[1] == hook for c in q.calls(n))]
+        R.need(len(loops) == 1, "idiom: %s does not call the hooks in one loop" % mname)
         lp = loops[0]
         early = [n for n in ast.walk(lp) if isinstance(n, (ast.Break, ast.Return))]
         inner_raise = [n for n in ast.walk(lp) if isinstance(n, ast.Raise)]
@@ -272,3 +239,67 @@ def run(R):
     R.require_min("C06.ENTER-EXIT", 8)
     R.require_min("C06.ALTERNATE", 6)
     R.require_min("C06.FIELDS", 2)
+
+
+def enter_exit_rules(R, P):
+    repo = R.repo
+    AC = repo.cls("contexts.AsyncContext")
+    NAC = repo.cls("contexts.NonAsyncContext")
+    # ---- ENTER / EXIT
+    for cls, hook_enter, hook_exit in ((AC, "resume", "pause"), (NAC, None, None)):
+        en, ex = cls.methods.get("__enter__"), cls.methods.get("__exit__")
+        R.need(en is not None and ex is not None, "anchor vanished: %s.__enter__/__exit__" % cls.qualname)
+        for m, hook, reg in ((en, hook_enter, "enter_context"), (ex, hook_exit, "leave_context")):
+            cfg = cfg_of(m)
+            if hook:
+                sites = [n for n, c in _calls_on_self(m, hook)]
+                p = cfg.find_path([cfg.entry], [cfg.exit], N, cut_nodes=sites)
+                R.check(p is None and sites, P + ".ENTER-EXIT", "%s:%s" % (m.qualname, hook), R.site(m),
+                        "%s calls self.%s() on every path" % (m.name, hook),
+                        "%s can return without calling self.%s(): %s" % (m.name, hook,
+                        "the context is never activated" if hook == "resume" else "the context stays active after the block is left (e.g. when it is left by an early result / GeneratorExit)"),
+                        cfg.fmt_path(p) if p else None)
+                p = kit.at_most_once(m, sites, N)
+                R.check(p is None, P + ".ENTER-EXIT", "%s:%s:once" % (m.qualname, hook), R.site(m),
+                        "self.%s() at most once per %s" % (hook, m.name), "self.%s() can be called twice by %s" % (hook, m.name),
+                        cfg.fmt_path(p) if p else None)
+            regs = kit.call_sites(m, lambda c: q.call_name(c) == reg and c.args and q.src(c.args[0]) == "self")
+
+            def asyncio_mode(nd):
+                if nd.kind != "test":
+                    return None
+                k, s, pos = q.atom_test(nd.ast)
+                if k == "call" and s == "is_asyncio_mode":
+                    return "T" if pos else "F"
+                return None
+
+            def keep(e, cfg=cfg):
+                lab = asyncio_mode(cfg.nodes[e.src])
+                return not (lab is not None and e.label == lab)
+            p = cfg.find_path([cfg.entry], [cfg.exit], N, cut_nodes=[n for n, c in regs], keep_edge=keep)
+            R.check(p is None and regs, P + ".ENTER-EXIT", "%s:%s" % (m.qualname, reg), R.site(m),
+                    "outside asyncio mode %s calls %s(self, ...) on every path" % (m.name, reg),
+                    "outside asyncio mode %s can skip %s(self): the scheduler does not know about the context (no pause when the task is suspended) "
+                    "or keeps pausing a context that was left" % (m.name, reg), cfg.fmt_path(p) if p else None)
+    # __exit__ unregisters before it pauses: if pause() raises, the context is nevertheless no longer known to the task
+    ex = AC.methods.get("__exit__")
+    cfg = cfg_of(ex)
+    leaves = [n for n, c in kit.call_sites(ex, lambda c: q.call_name(c) == "leave_context")]
+    pauses = [n for n, c in _calls_on_self(ex, "pause")]
+
+    def asyncio_mode(nd):
+        if nd.kind != "test":
+            return None
+        k, s_, pos = q.atom_test(nd.ast)
+        if k == "call" and s_ == "is_asyncio_mode":
+            return "T" if pos else "F"
+        return None
+
+    def keep(e):
+        lab = asyncio_mode(cfg.nodes[e.src])
+        return not (lab is not None and e.label == lab)
+    p = cfg.find_path([cfg.entry], pauses, N, cut_nodes=leaves, keep_edge=keep)
+    R.check(p is None and leaves and pauses, P + ".EXIT-ORDER", ex.qualname, R.site(ex),
+            "outside asyncio mode __exit__ unregisters the context from its task before calling pause()",
+            "__exit__ can call pause() before the context is unregistered: if pause() raises, the context stays registered with the task although its block "
+            "was left, and the scheduler keeps pausing and resuming it (pause, pause; calls after the exit)", cfg.fmt_path(p) if p else None)
